@@ -143,7 +143,7 @@ theorem poll_ka_expiry (c : Cfg) (s : St) (i : In) (d : Nat) (hi : Inv c s) (hc 
   exact pollModes_shutdown c i _ [] (kaExpire_shutdown c i _)
 
 /-- effect of `poll_head_timer` when the deadline has passed: a 408 response with
-`connection: close` is queued, SHUTDOWN is set, the timer is cleared (fix a62d374) -/
+`connection: close` is queued, SHUTDOWN is set, the timer is cleared (fix 446aadc) -/
 theorem pollHeadTimer_fires (c : Cfg) (i : In) (s : St) (d : Nat) (hi : Inv c s) (hd0 : s.draining = false)
     (hk : s.headTimer = .active d) (hd : d ≤ i.now) :
     ∃ cl, (pollHeadTimer c i s).writeBuf = s.writeBuf ++ [Out.head 408 cl, Out.bodyEnd] ∧
